@@ -22,6 +22,11 @@ theorem roundtrip_basic (doc : Node) (h : rtDocOk rBasic dBasic doc = true) : ro
 theorem roundtrip_list (doc : Node) (h : rtDocOk rList dList doc = true) : roundTrip rList dList doc = .ok doc :=
   PM.C19.roundtrip_of_parts rList dList doc list_rtSchemaOk h
 
+/-- the same for the basic schema with marks allowed on `doc` (harness/schemas.py: "marks-on-doc") -/
+theorem roundtrip_marksOnDoc (doc : Node) (h : rtDocOk rMarksOnDoc dMarksOnDoc doc = true) :
+    roundTrip rMarksOnDoc dMarksOnDoc doc = .ok doc :=
+  PM.C19.roundtrip_of_parts rMarksOnDoc dMarksOnDoc doc marksOnDoc_rtSchemaOk h
+
 /-- for these schemas the document part is the whole hypothesis `rtOk` of the general theorem -/
 theorem rtDocOk_basic_eq (doc : Node) : rtDocOk rBasic dBasic doc = rtOk rBasic dBasic doc :=
   PM.C19.roundtrip_parts_iff rBasic dBasic doc basic_rtSchemaOk
